@@ -21,7 +21,7 @@ import proto
 import treedump
 from parts import parsetie, texts as T
 
-SPEC = dict(gen=['tables', 'actions', 'lexdata'], props=['CalmVerif.Props.C11', 'CalmVerif.Props.C11comp'], drivers=['drv_parse'],
+SPEC = dict(gen=['tables', 'actions', 'lexdata'], props=['CalmVerif.Props.C11', 'CalmVerif.Props.C11comp', 'CalmVerif.Props.C11tok'], drivers=['drv_parse'],
             audit='Audit/C11.lean')
 
 OPERATOR_FORMS = {'BinOp': 'op', 'Assign': 'op', 'PostfixExpr': 'op', 'Conditional': '?', 'Comma': ',',
